@@ -149,6 +149,15 @@ class NestedTransdimensional(BaseProposal):
                               {p: givenx[p] for p in prop.parameters})
         return lp
 
+    def _reset_adaptation(self):
+        """Resets the adaptation of the nested proposals that are adaptive."""
+        for prop in list(self.proposals) + [self.model_proposal]:
+            # non-adaptive proposals will yield an attribute error
+            try:
+                prop._reset_adaptation()
+            except AttributeError:
+                pass
+
     def _update(self, chain):
         # check that proposal has been stepped in at least twice in a row
         if chain.iteration > 1:
